@@ -291,4 +291,37 @@ def allowedReq (cs : List CtxSite) (rs : List ReqSite) (T : Tables) (i : Input) 
     (List.range i.n).all (fun c => o.final c == m.final c) &&
     swarmOk m.swarmMax o.swarm
 
+/-! ### the tables of api/types.go driven directly (round 8 final: the `types` case kind) -/
+
+/-- what one `types` case observes of the real code: `IPFSPinStatusFromString text`, `IsPinned depth` of that and of a given
+status, `PinDepth.ToPinMode().String()` and `PinModeFromString` of it printed again -/
+structure TypesOut where
+  parsed : St
+  pinnedParsed : Bool
+  pinnedStatus : Bool
+  pinType : String
+  roundTrip : String
+  deriving DecidableEq, Repr
+
+/-- the same answers read off the regenerated tables (`none` = a table that is not understood) -/
+def typesT (fs ip tm ms : List (Arm String)) (text : String) (st : St) (d : Int) : Option TypesOut :=
+  match fromStringT fs text, isPinnedT ip st d, pinTypeT tm ms d with
+  | some p, some b, some t =>
+    match isPinnedT ip p d with
+    | some a => some ⟨p, a, b, t, t⟩
+    | none => none
+  | _, _, _ => none
+
+/-- the status that satisfies a request of this depth (0 = direct, anything else recursive): the property's reading -/
+def wantSt (d : Int) : St := if d = 0 then .direct else .recursive
+
+/-- what the property needs of these tables, stated WITHOUT them: the short-cut test accepts exactly the requested mode;
+go-ipfs' own `Type` texts are read as the state they name and the empty text as no pin; the `type=` filter names the mode -/
+def typesClauses (text : String) (st : St) (d : Int) (o : TypesOut) : List (String × Bool) :=
+  [("types_asked_mode", o.pinnedStatus == decide (wantSt d = st) && o.pinnedParsed == decide (wantSt d = o.parsed)),
+   ("types_named", (text != "direct" || o.parsed == .direct) && (text != "recursive" || o.parsed == .recursive) &&
+      (!("indirect through ".toList.isPrefixOf text.toList) || o.parsed == .indirect) &&
+      (text != "" || o.parsed == .bug) && o.parsed != .unpinned && o.parsed != .error),
+   ("types_pin_type", o.pinType == (if d = 0 then "direct" else "recursive") && o.roundTrip == o.pinType)]
+
 end CV.C16.ReqM
